@@ -143,6 +143,8 @@ def inputs(tier):
     mem = list(families.mem_family(3))
     step = len(mem) // (60 if tier == "quick" else 300)
     ins += mem[::step]
+    live = list(families.live_loads_family())
+    ins += live[::4] if tier == "quick" else live
     ins += [[B.I("DUP2"), B.I("DUP2"), B.I("MSTORE"), B.P(32), B.I("ADD")] * 3,
             [B.P(1), B.P(2), B.I("SSTORE"), B.P(3), B.P(4), B.I("SSTORE"), B.P(2), B.I("SLOAD"), B.P(0), B.I("MSTORE"),
              B.P(32), B.P(0), B.I("KECCAK256"), B.P(5), B.I("SSTORE")]]
